@@ -13,8 +13,6 @@ import (
 	tinkpb "github.com/tink-crypto/tink-go/v2/proto/tink_go_proto"
 	"github.com/tink-crypto/tink-go/v2/verifsim/catalog"
 	"github.com/tink-crypto/tink-go/v2/verifsim/classes"
-	"github.com/tink-crypto/tink-go/v2/verifsim/core"
-	"github.com/tink-crypto/tink-go/v2/verifsim/stubkm"
 )
 
 // ---------------------------------------------------------------------------
@@ -182,8 +180,6 @@ func stubVariants(class string) []string {
 
 func stubBase(class string) string { return "stub/" + class }
 
-var _ = stubkm.Register
-
 // ---------------------------------------------------------------------------
 // monitoring client (deterministic: one slice, appended on the driving goroutine)
 
@@ -260,5 +256,3 @@ func statusLetter(s fmt.Stringer) string {
 	}
 	return str[:2]
 }
-
-var _ = core.Hex
